@@ -131,6 +131,7 @@ def _lay_props(modules, rule, oracle_pass, nontrivial=None, extra_trusted=None, 
         'trusted_base': ['Model/Layout.lean as a transcription of keyberon/src/layout.rs (checked differentially per tick incl. a digest of the private state through hook verif_digest)',
                          'the harness serialiser of the parsed configuration (harness/src/ser.rs, lay.rs)'] + (extra_trusted or []),
         'assumptions': assumptions or ['OS output is taken as the key-code list of the layout per tick (the kanata diffing layer is modelled separately)'],
+        'determined': _lay_keyseq, 'determined_what': 'the order in which the key list sent to the OS changes, tick numbers aside',
     }
     return d
 
@@ -139,8 +140,70 @@ def _crash_or_ok(out):
     return 'fail crash: ' + out if out.startswith('crash') else 'ok'
 
 
+def _lay_keyseq(case, out):
+    """layout level: the order in which the OS key list changes, without tick numbers"""
+    if out.startswith(('rej', 'crash', 'unsupported')):
+        return out.split(' ')[0]
+    return ' '.join(x.split(' ', 1)[1] for x in re.findall(r'@\d+ K\S+', _lay_keys_only(out))) or '-'
+
+
+def _kan_evseq(case, out):
+    """kanata level: the OS events in order (keys, buttons, scroll, unicode), without virtual times;
+    repeat items keep their place ('R' + what was emitted)"""
+    if out.startswith(('rej', 'crash', 'unsupported')):
+        return out.split(' ')[0]
+    main = out.split(' || ')[0]
+    res = []
+    for tok in main.split(' '):
+        if tok in ('I', 'D'):
+            break
+        if tok.startswith('@'):
+            if tok.endswith('R'):
+                res.append('R')
+            continue
+        if tok.startswith('#'):
+            continue
+        res.append(tok)
+    return ' '.join(res) or '-'
+
+
+def _kan_final(case, out):
+    """kanata level: what is left down at the OS at the end, and the idle flag"""
+    if out.startswith(('rej', 'crash', 'unsupported')):
+        return out.split(' ')[0]
+    down = []
+    for tok in _kan_evseq(case, out).split(' '):
+        if tok.startswith('bd'):
+            k = 'btn' + tok[2:]
+            if k not in down:
+                down.append(k)
+        elif tok.startswith('bu'):
+            down = [x for x in down if x != 'btn' + tok[2:]]
+        elif re.fullmatch(r'd\d+', tok):
+            if tok[1:] not in down:
+                down.append(tok[1:])
+        elif re.fullmatch(r'u\d+', tok):
+            down = [x for x in down if x != tok[1:]]
+    m = re.search(r' I idle=(\d)', ' ' + out.split(' || ')[0])
+    return 'down=' + ','.join(sorted(down)) + ' idle=' + (m.group(1) if m else '?')
+
+
+def _kan_repeats(case, out):
+    """kanata level: what each OS repeat event produced, in order"""
+    if out.startswith(('rej', 'crash', 'unsupported')):
+        return out.split(' ')[0]
+    toks = _kan_evseq(case, out).split(' ')
+    res = []
+    for i, t in enumerate(toks):
+        if t == 'R':
+            res.append('R:' + (toks[i + 1] if i + 1 < len(toks) and toks[i + 1] != 'R' else '-'))
+    return ' '.join(res) or '-'
+
+
 def _kan_props(modules, rule, oracle_pass=None, oracle_project=None, nontrivial=None):
     d = _lay_props(modules, rule, oracle_pass, nontrivial)
+    d['determined'] = _kan_evseq
+    d['determined_what'] = 'the order of the events sent to the OS, virtual times aside'
     if oracle_project:
         d['oracle_project'] = oracle_project
     d['trusted_base'] = d['trusted_base'] + ['Model/Kanata.lean as a transcription of src/kanata/mod.rs, key_repeat.rs, caps_word.rs, output_logic.rs (checked differentially on OS events with virtual-time stamps, the idle flag and the layout digest)']
@@ -195,6 +258,16 @@ PROPS = {
         'assumptions': ['leaf tests are read from the layout state as Switch::actions receives them; how layout.rs builds those iterators is covered by the layout model, not here'],
     },
 }
+
+# observables the statement of each property determines (used to turn a model/implementation
+# disagreement into a concrete failing input; see check: 'determined')
+PROPS['C02']['determined'] = lambda case, out: 'crash' if out.startswith('crash') else ('rej' if out.startswith('rej') else 'runs')
+PROPS['C02']['determined_what'] = 'whether event processing crashes or hangs'
+PROPS['C01']['determined'] = _kan_final
+PROPS['C01']['determined_what'] = 'what is left down at the OS after the quiet tail, and whether kanata reports idle'
+PROPS['C07']['determined'] = None   # the property compares two runs of the implementation; the paired-run oracle decides
+PROPS['C14']['determined'] = _kan_repeats
+PROPS['C14']['determined_what'] = 'what each OS repeat event produced'
 
 
 # ----------------------------------------------------------------------------- C13 (global overrides)
@@ -642,6 +715,9 @@ PROPS['C12'] = {
     'assumptions': ['runtime theorems are about the sequence functions fed with the key presses the key-state diff produces; the layout slice (queue, one event per tick, NormalKey/Custom states) is modelled and compared per tick, not proved about',
                     'fewer than 32 queued events and 64 key states; key codes are keyboard keys (no mouse buttons/wheel)'],
 }
+
+PROPS['C12']['determined'] = lambda case, out: _c12_project(out) if case.startswith('C12 R') and out.startswith('ok ') else None
+PROPS['C12']['determined_what'] = 'which virtual keys were tapped, which keys were pressed at the OS, how many backspaces, and whether sequence mode is still on'
 
 # ---------------------------------------------------------------------------------------- C16
 def _c16_norm(out):
